@@ -506,6 +506,29 @@ pub fn gen_c17(rng: &mut Rng, thorough: bool) -> Vec<Tagged> {
         let tag = format!("loop-{:?}-k{}{}{}", spec.loopacc, k, if insk { "-inskips" } else { "" }, match r % 3 { 0 => "-dense", 1 => "-spatial", _ => "-flattenboundary" });
         out.push((tag, Case::Net(spec, NetCmd::Forward(x))));
     }
+    // loop connections in networks that ALSO have skip connections (before the looped range, and behind it)
+    for r in 0..(if thorough { 60 } else { 15 }) {
+        let n = 2 + r % 2;
+        let depth = 5usize;
+        let mut spec = NetSpec::new(Sh::Flat(n).to_shape());
+        let mut ws = vec![];
+        for _ in 0..depth {
+            let d = Simple::Dense { out: n, act: *rng.pick(&[Act::Tanh, Act::Sigmoid, Act::Linear]), bias: rng.coin(), dropout: None };
+            ws.push(LW::One(rand_w(rng, &d, Sh::Flat(n), 1)));
+            spec.layers.push(LayerSpec::One(d));
+        }
+        spec.weights = Some(ws);
+        spec.loopacc = ALL_ACCS[r % 5];
+        spec.skipacc = ALL_ACCS[(r / 5) % 5];
+        let (conn, lp): (Vec<(usize, usize)>, (usize, usize)) = match r % 3 {
+            0 => (vec![(0, 1)], (3, 2)),          // skip before, loop behind it
+            1 => (vec![(3, 4)], (1, 0)),          // loop first, skip behind it
+            _ => (vec![(0, 1), (3, 4)], (2, 2)),  // loop between two skips
+        };
+        spec.connect = conn;
+        spec.loops = vec![(lp.0, lp.1, 1 + r % 3, r % 2 == 1)];
+        out.push((format!("loop-with-skip-connections-{}", r % 3), Case::Net(spec, NetCmd::Forward(rand_input(rng, Sh::Flat(n), 0)))));
+    }
     // many iterations (beyond 2^6) with every accumulation
     for (ai, acc) in ALL_ACCS.iter().enumerate() {
         let k = [65usize, 70, 130, 66, 129][ai];
@@ -761,6 +784,20 @@ pub fn gen_c13(rng: &mut Rng, thorough: bool) -> Vec<Tagged> {
         let with_val = r % 5 != 0;
         let tag = format!("early-lr{}-T{}-E{}{}", lr, th, epochs, if with_val { "" } else { "-noval" });
         out.push((tag, Case::Net(spec, NetCmd::Learn { data, val: if with_val { Some((val, th)) } else { None }, batch: 1, epochs })));
+    }
+    // a second call of learn on the same network WITH validation data: the rule counts the epochs of THAT
+    // call and looks at THAT call's validation losses
+    for r in 0..(if thorough { 40 } else { 12 }) {
+        let mut spec = NetSpec::new(Sh::Flat(1).to_shape());
+        spec.layers.push(LayerSpec::One(Simple::Dense { out: 1, act: Act::Linear, bias: false, dropout: None }));
+        spec.weights = Some(vec![LW::One(W::Dense(t2(1, 1, &[0.5]), None))]);
+        let lr = [0.1f32, -0.05, 2.2, 1e-30, -0.2, 1.05][r % 6];
+        spec.opt = Opt::SGD { lr, decay: None };
+        spec.obj = Obj::MSE;
+        let data = vec![(t1(vec![1.0]), t1(vec![[1.0f32, 0.0][r % 2]]))];
+        let val = vec![(t1(vec![1.0]), t1(vec![[1.0f32, -1.0, 3.0][r % 3]]))];
+        let th = 1 + (r % 4) as i32;
+        out.push((format!("early-second-call-T{}", th), Case::Net(spec, NetCmd::LearnTwiceVal { data, val, th, batch: 1, epochs1: 1 + (r % 5) as i32, epochs2: 2 + (r % 7) as i32 })));
     }
     // extreme tolerances: i32::MAX ("never stop"), its neighbours, zero and negative windows, against rising
     // and falling validation losses
@@ -1079,6 +1116,28 @@ pub fn gen_c12(rng: &mut Rng, thorough: bool) -> Vec<Tagged> {
         out.push(("predict-batch-skipnet".into(), Case::Net(spec.clone(), NetCmd::PredictBatch(data.iter().map(|d| d.0.clone()).collect()))));
         out.push(("predict-skipnet".into(), Case::Net(spec.clone(), NetCmd::Predict(data[0].0.clone()))));
         out.push(("forward-skipnet".into(), Case::Net(spec, NetCmd::Forward(data[0].0.clone()))));
+    }
+    // the same input (one tensor object, passed several times in a row) with DIFFERENT targets: every sample is
+    // scored against its own target
+    for r in 0..(if thorough { 12 } else { 4 }) {
+        let softmax = r % 2 == 1;
+        let mut spec = NetSpec::new(Sh::Flat(2).to_shape());
+        let d = Simple::Dense { out: 2, act: if softmax { Act::Softmax } else { Act::Tanh }, bias: true, dropout: None };
+        spec.weights = Some(vec![LW::One(rand_w(rng, &d, Sh::Flat(2), 2))]);
+        spec.layers.push(LayerSpec::One(d));
+        spec.obj = if softmax { Obj::CE } else { Obj::MSE };
+        let x = rand_input(rng, Sh::Flat(2), 2);
+        let x2 = rand_input(rng, Sh::Flat(2), 2);
+        let mk_t = |rng: &mut Rng, k: usize| if softmax { t1(if k % 2 == 0 { vec![1.0, 0.0] } else { vec![0.0, 1.0] }) } else { t1(vec![rng.sym(), rng.sym()]) };
+        let mut data: Vec<(Tensor, Tensor)> = vec![];
+        for k in 0..(3 + r % 3) {
+            data.push((x.clone(), mk_t(rng, k)));
+        }
+        data.push((x2.clone(), mk_t(rng, 0)));
+        data.push((x2.clone(), mk_t(rng, 1)));
+        data.push((x.clone(), mk_t(rng, 1)));
+        out.push(("validate-repeated-input-different-targets".into(), Case::Net(spec.clone(), NetCmd::Validate { data: data.clone(), tol: 0.25, pre_training: false })));
+        out.push(("predict-batch-repeated-input".into(), Case::Net(spec, NetCmd::PredictBatch(data.iter().map(|d| d.0.clone()).collect()))));
     }
     // data sets beyond 2^10 samples (tiny network): every sample enters both means, in order
     for &nd in (if thorough { &[1023usize, 1025, 2049, 4100][..] } else { &[1025usize][..] }) {
